@@ -431,6 +431,7 @@ pub fn corr_opts(ctx: &mut Ctx, directed: bool) {
 
     small_sweep(ctx);
     large_m_entry_points(ctx);
+    long_streams(ctx);
 
     // ---------- edge: weight <= 0 ---------------------------------------------------------------------
     ctx.begin_case("pmh3 weight 0 (hash_item asserts) / pmh3a weight 0 (skipped)");
@@ -464,6 +465,51 @@ pub fn corr_opts(ctx: &mut Ctx, directed: bool) {
     }
 }
 
+
+/// one instance receiving MORE than 2^16 (+ 2^8) items: bookkeeping that counts items, resets or generations in a
+/// narrow integer shows only then; implementation only: two insertion orders (a heavy item first / at rank 2^16+1 ...)
+/// on fresh instances must give the same signature and registers, item-wise ProbMinHash2 / ProbMinHash3 and one
+/// ProbMinHash3a batch
+pub fn long_streams(ctx: &mut Ctx) {
+    let cases: Vec<(usize, usize)> = if ctx.quick() { vec![(8, 65_536 + 300), (1024, 65_536 + 2)] } else { vec![(8, 65_536 + 300), (1024, 65_536 + 2), (64, 140_000), (3, 70_000)] };
+    for (m, n) in cases {
+        ctx.begin_case(&format!("pmh long stream m={} n={}", m, n));
+        ctx.mark_nontrivial();
+        ctx.count("long stream (> 2^16 items on one instance)");
+        let mut rng = ctx.rng.fork();
+        let ids = gen_ids(&mut rng, n);
+        // light items (they touch few slots) around two heavy ones that touch every slot
+        let mut items: Vec<(u64, f64)> = ids.iter().enumerate().map(|(i, x)| (*x, 1e-6 * (1.0 + (i % 5) as f64))).collect();
+        items[0].1 = 1e3;
+        items[65_536].1 = 2e3;
+        let mut orders: Vec<Vec<(u64, f64)>> = vec![items.clone()];
+        let mut o2 = items.clone(); o2.swap(0, 65_536); orders.push(o2);
+        let mut o3 = items.clone(); o3.reverse(); orders.push(o3);
+        let mut o4 = items.clone(); let h = o4.remove(65_536); o4.insert(1, h); orders.push(o4);
+        for variant in ["pmh2", "pmh3", "pmh3a"] {
+            let mut outs: Vec<Result<(Vec<u64>, Vec<f64>), String>> = Vec::new();
+            for o in &orders {
+                let o = o.clone();
+                outs.push(match variant {
+                    "pmh2" => catch(std::panic::AssertUnwindSafe(move || { let mut h = ProbMinHash2::<u64, FnvHasher>::new(m, INIT); for (x, w) in &o { h.hash_item(*x, *w); } (h.get_signature().clone(), h.verif_registers()) })),
+                    "pmh3" => catch(std::panic::AssertUnwindSafe(move || { let mut h = ProbMinHash3::<u64, FnvHasher>::new(m, INIT); for (x, w) in &o { h.hash_item(*x, w); } (h.get_signature().clone(), h.verif_registers()) })),
+                    _ => catch(std::panic::AssertUnwindSafe(move || { let mut map: IndexMap<u64, f64> = IndexMap::new(); for (x, w) in &o { map.insert(*x, *w); }
+                               let mut h = ProbMinHash3a::<u64, FnvHasher>::new(m, INIT); h.hash_weigthed_idxmap(&map); (h.get_signature().clone(), h.verif_registers()) })),
+                });
+            }
+            for (i, r) in outs.iter().enumerate() {
+                let same = match (&outs[0], r) { (Ok(a), Ok(b)) => a.0 == b.0 && a.1.iter().map(|x| x.to_bits()).eq(b.1.iter().map(|x| x.to_bits())), _ => false };
+                if !same {
+                    let which = ["as generated", "heavy items swapped", "reversed", "second heavy item moved to rank 2"][i];
+                    ctx.oracle_failure(serde_json::json!({"kind":"impl_violates_property","what":"signature of a long stream (> 2^16 items on one instance) depends on the insertion order",
+                        "variant":variant,"m":m,"n":n,"order":which,
+                        "panic": r.as_ref().err().cloned().unwrap_or_default()}));
+                    break;
+                }
+            }
+        }
+    }
+}
 
 /// many small cases with weights within a factor of two and n from m to 8m: this is where a wrong pruning
 /// bound (a point dropped although it could still win a register) shows up, and only in ~1% of the cases
